@@ -23,3 +23,101 @@ def norm_disagrees(rec, obs):
     if obs["outcome"] != "return":
         return True
     return "".join(map(chr, obs["value"]["cp"])) != want
+
+
+def c04_disagrees(rec, obs):
+    from spec import iso9362
+
+    s = iso13616.normalise_concrete(_text(rec))
+    want = iso9362.accepts_concrete(s, bool(rec.get("strict")))
+    return want != (obs["outcome"] == "return")
+
+
+def _entrypoints(cls, text, kw):
+    """(constructor outcome, validate outcome, is_valid outcome) on the real library"""
+    from schwifty.exceptions import SchwiftyException
+
+    def t(f):
+        try:
+            return ("ret", f())
+        except Exception as e:  # noqa: BLE001
+            return ("exc", e)
+
+    r1 = t(lambda: cls(text, **kw))
+    try:
+        obj = cls(text, allow_invalid=True)
+    except Exception as e:  # noqa: BLE001
+        return r1, ("exc", e), ("exc", e), SchwiftyException
+    r2 = t(lambda: obj.validate(**{k: v for k, v in kw.items() if k != "allow_invalid"}))
+    r3 = t(lambda: obj.is_valid)
+    return r1, r2, r3, SchwiftyException
+
+
+def _c05_generic(r1, r2, r3, fam, strict=False):
+    if r3[0] == "exc":
+        return True
+    if not strict and (r3[1] is not (r1[0] == "ret")):
+        return True
+    if (r2[0] == "ret") != (r1[0] == "ret"):
+        return True
+    if r2[0] == "ret" and r2[1] is not True:
+        return True
+    if r1[0] == "exc" and (not isinstance(r1[1], fam) or type(r1[1]) is not type(r2[1])):
+        return True
+    return False
+
+
+def c05_iban(rec, obs):
+    import schwifty
+    from schwifty import exceptions as ex
+    from spec import table
+
+    text = _text(rec)
+    r1, r2, r3, fam = _entrypoints(schwifty.IBAN, text, {})
+    if _c05_generic(r1, r2, r3, fam):
+        return True
+    if r1[0] == "ret":
+        return False
+    s = iso13616.normalise_concrete(text)
+    e = r1[1]
+    cc = s[:2]
+    known = cc in table.countries()
+    cls = table.classes(cc) if known else None
+    right_len = known and cls is not None and len(s) == 4 + len(cls)
+    head_ok = len(s) >= 4 and s[0] in iso13616.UPPERS and s[1] in iso13616.UPPERS and s[2] in iso13616.DIGITS and s[3] in iso13616.DIGITS
+    if isinstance(e, ex.InvalidCountryCode):
+        return known
+    if isinstance(e, ex.InvalidLength):
+        return right_len
+    if isinstance(e, ex.InvalidStructure):
+        return head_ok and (not right_len or all(iso13616.char_in_class(ord(c), k) for c, k in zip(s[4:], cls)))
+    if isinstance(e, ex.InvalidChecksumDigits):
+        return not iso13616.structure_ok_concrete(s) or iso13616.accepts_concrete(s)
+    return True
+
+
+def c05_bic(rec, obs):
+    import schwifty
+    from schwifty import exceptions as ex
+    from spec import iso9362
+
+    text = _text(rec)
+    strict = bool(rec.get("strict"))
+    kw = {"enforce_swift_compliance": True} if strict else {}
+    r1, r2, r3, fam = _entrypoints(schwifty.BIC, text, kw)
+    if _c05_generic(r1, r2, r3, fam, strict):
+        return True
+    if r1[0] == "ret":
+        return False
+    s = iso13616.normalise_concrete(text)
+    e = r1[1]
+    if isinstance(e, ex.InvalidLength):
+        return len(s) in (8, 11)
+    if len(s) not in (8, 11):
+        return True
+    cls_ok = all(any(lo <= ord(ch) <= hi for lo, hi in rs) for ch, rs in zip(s, iso9362.position_classes(len(s), strict)))
+    if isinstance(e, ex.InvalidStructure):
+        return cls_ok
+    if isinstance(e, ex.InvalidCountryCode):
+        return s[4:6] in iso9362.alpha2_codes()
+    return True
